@@ -22,11 +22,15 @@ import c08_gen, c08_real, c08_sym, c08_trace, progen
 MODEL_FILES = ['MaltModel/Analysis/QualNames.lean', 'MaltModel/Analysis/Activity.lean', 'MaltModel/Analysis/ActivityFn.lean',
                'MaltModel/Analysis/ActivityHyp.lean', 'MaltModel/Spec/Symtable.lean', 'MaltModel/Spec/Dynamic.lean',
                'MaltModel/Proofs/C08Activity.lean', 'MaltModel/Proofs/C08Dynamic.lean', 'MaltModel/Proofs/C08Classes.lean', 'MaltModel/Proofs/C08Nested.lean', 'MaltModel/Proofs/C08Comp.lean', 'MaltModel/Proofs/C08CompDynamic.lean',
+               'MaltModel/Spec/Outer.lean', 'MaltModel/Proofs/C08Frees.lean', 'MaltModel/Proofs/C08FreesModel.lean',
+               'MaltModel/Proofs/C08FreesStmt.lean', 'MaltModel/Proofs/C08FreesTop.lean',
                'MaltModel/Drv/C08.lean']
 CLASSES = ['walrusInComp', 'harmfulLeaks', 'classShadow', 'argAnnotations', 'nonlocalBelow', 'globalBelow']
 PRELUDE_LINES = c08_gen.PRELUDE.count('\n')
 MAX_STORED_FAILS = 40
-NL = 6   # driver requests per case
+NL = 7   # driver requests per case
+NFR = 7  # booleans answered by c08.frag
+FREES_CLASSES = ['harmfulLeaks', 'classShadow', 'globalBelow', 'nonlocalBelow']
 
 
 class Case(object):
@@ -134,6 +138,56 @@ def prepare(case, workdir, trace=True):
     return p
 
 
+def parse_frag(text):
+    try:
+        fr = [x == 'True' for x in parse_sexp(text)]
+    except Exception:
+        fr = []
+    return (fr + [False] * NFR)[:NFR]
+
+
+def frees_hyp(fr, hyp):
+    """The hypotheses of C08_frees_nested, evaluated by the Lean driver (same predicates as the classifier's)."""
+    return fr[0] and fr[1] and fr[2] and fr[6] and not any(hyp.get(c) for c in FREES_CLASSES)
+
+
+def frees_check(outer_text, iclasses, sclasses, ser, lineno_shift, holds, has_inlined_comp, stats, prefix, src, dis):
+    """`c08.outer` against (a) the implementation's recorded scopes where the hypotheses of C08_frees_nested hold,
+    (b) CPython's symtable (free variables = outerB ∩ visible; implicit globals ⊆ outerB − visible)."""
+    try:
+        rows = [(int(r[0]), set(r[1]), set(r[2])) for r in parse_sexp(outer_text)]
+    except Exception:
+        return
+    by_id = {c['id']: c for c in iclasses if c['name'] != 'lambda'}
+    sym = {}
+    for c in (sclasses or []):
+        sym.setdefault((c['name'], c['lineno']), []).append(c)
+    for fid, outer, vis in rows:
+        ic = by_id.get(fid)
+        if ic is None:
+            continue
+        stats[prefix + 'defs_seen'] = stats.get(prefix + 'defs_seen', 0) + 1
+        if holds:
+            stats[prefix + 'defs_covered_by_C08_frees_nested'] = stats.get(prefix + 'defs_covered_by_C08_frees_nested', 0) + 1
+            if vis:
+                stats[prefix + 'nested_defs_covered_by_C08_frees_nested'] = stats.get(prefix + 'nested_defs_covered_by_C08_frees_nested', 0) + 1
+            got = (ic['free_vars'] | ic['nonlocals']) - ic['globals']
+            if got != outer:
+                dis['thm-frees'].append({'source': src, 'def': fid, 'analysis': sorted(got), 'outerB': sorted(outer)})
+            elif ic['frees'] != (outer & vis):
+                dis['thm-frees'].append({'source': src, 'def': fid, 'analysis_frees': sorted(ic['frees']), 'outerB_visible': sorted(outer & vis)})
+        if sclasses is not None and not has_inlined_comp:
+            node = ser.nodes[fid]
+            cands = sym.get((ic['name'], node.lineno + lineno_shift), [])
+            if len(cands) == 1:
+                sc = cands[0]
+                stats[prefix + 'defs_outerB_vs_symtable'] = stats.get(prefix + 'defs_outerB_vs_symtable', 0) + 1
+                if sc['frees'] != (outer & vis) or not (sc['implicit_globals'] <= (outer - vis)):
+                    dis['outer-symtable'].append({'source': src, 'def': fid, 'cpython_free': sorted(sc['frees']),
+                                                  'cpython_implicit_global': sorted(sc['implicit_globals']),
+                                                  'outerB': sorted(outer), 'visible': sorted(vis)})
+
+
 def class_of(name, hyp):
     """First deviation class (Lean predicate) implicating `name` in this tree, or None."""
     for c in CLASSES:
@@ -227,10 +281,12 @@ def check_cases(run, cases, workdir, label, stats):
         lines = []
         for p in preps:
             t = p.ser.text()
-            lines += ['c08.activity ' + t, 'c08.classes ' + t, 'c08.spec ' + t, 'c08.units ' + t, 'c08.hyp ' + t, 'c08.frag ' + t]
+            lines += ['c08.activity ' + t, 'c08.classes ' + t, 'c08.spec ' + t, 'c08.units ' + t, 'c08.hyp ' + t, 'c08.frag ' + t,
+                      'c08.outer ' + t]
         answers = run.drive(lines) if lines else []
     results = []
-    dis = {'activity': [], 'classes': [], 'spec-symtable': [], 'trace-in-spec-dynamic': [], 'thm-classes': [], 'thm-dynamic': []}
+    dis = {'activity': [], 'classes': [], 'spec-symtable': [], 'trace-in-spec-dynamic': [], 'thm-classes': [], 'thm-dynamic': [],
+           'thm-frees': [], 'outer-symtable': []}
     for idx, p in enumerate(preps):
         c = p.case
         res = {'case': c, 'failed': [], 'aside': None}
@@ -238,9 +294,10 @@ def check_cases(run, cases, workdir, label, stats):
         nblocks = len(p.sym_flat)
         run.case(c.key, nontrivial=nblocks > 1 or len(p.ser.nodes) > 12)
         stats['blocks'] = stats.get('blocks', 0) + nblocks
-        hyp, units, fr = {}, None, [False] * 6
+        hyp, units, fr = {}, None, [False] * NFR
+        a_outer = None
         if answers is not None:
-            a_act, a_cls, a_spec, a_units, a_hyp, a_frag = answers[NL * idx: NL * idx + NL]
+            a_act, a_cls, a_spec, a_units, a_hyp, a_frag, a_outer = answers[NL * idx: NL * idx + NL]
             try:
                 hyp = {k: set(v) for k, v in parse_sexp(a_hyp)}
             except Exception:
@@ -250,11 +307,9 @@ def check_cases(run, cases, workdir, label, stats):
                     stats['class:' + cl] = stats.get('class:' + cl, 0) + 1
             if not any(hyp.get(cl) for cl in CLASSES):
                 stats['free_of_all_deviation_classes'] = stats.get('free_of_all_deviation_classes', 0) + 1
-            try:
-                fr = [x == 'True' for x in parse_sexp(a_frag)]
-            except Exception:
-                fr = []
-            fr = (fr + [False] * 6)[:6]
+            fr = parse_frag(a_frag)
+            if frees_hyp(fr, hyp):
+                stats['hypotheses_of_C08_frees_nested_hold'] = stats.get('hypotheses_of_C08_frees_nested_hold', 0) + 1
             if fr[0] and fr[2]:
                 stats['hypotheses_of_C08_dynamic_lookup_hold'] = stats.get('hypotheses_of_C08_dynamic_lookup_hold', 0) + 1
             if fr[4]:
@@ -292,6 +347,10 @@ def check_cases(run, cases, workdir, label, stats):
                      dict(c.data(), observation=['static', cat, fk[0], fk[1] - PRELUDE_LINES, name]), cls)
             res['failed'].append(cls)
         stats['functions_vs_symtable'] = stats.get('functions_vs_symtable', 0) + len(p.iclasses)
+        # ---- C08_frees_nested on the real code, and Spec.outerB against CPython
+        if a_outer is not None and not p.is_async and not p.aliasing and not p.unknown:
+            inlined = any(isinstance(n, (ast.ListComp, ast.SetComp, ast.DictComp)) for n in ast.walk(p.fn))
+            frees_check(a_outer, p.iclasses, p.sclasses, p.ser, 0, frees_hyp(fr, hyp), inlined, stats, '', c.src, dis)
         # ---- (3b) direct oracle: traced execution vs statement sets
         if p.trace is not None:
             obs, checked, aside = dynamic_oracle(p)
@@ -381,7 +440,7 @@ def first_difference(src, impl_text, model_text):
 
 def repo_correspondence(run, stats):
     """(1) on every function of /repo (syntactic corpus; not executed, not compared with symtable)."""
-    lines, exp, meta = [], [], []
+    lines, exp, meta, impls = [], [], [], []
     for rf in progen.repo_functions():
         node = c08_real.fresh(rf.node)
         if c08_real.literal_aliasing(node):
@@ -398,17 +457,42 @@ def repo_correspondence(run, stats):
                      {'source': ast.unparse(node), 'call': '', 'runnable': False, 'kind': 'repo', 'observation': ['crash', im.crash]},
                      'subscriptLiteralAssert' if im.crash == 'literalAssert' else None)
         run.case('repo:%s:%s' % (rf.path, rf.qualname), nontrivial=len(im.ser.nodes) > 12)
-        lines.append('c08.activity ' + im.ser.text()); exp.append(im.text()); meta.append(ast.unparse(node))
-    stats['repo_functions'] = len(lines)
+        t = im.ser.text()
+        lines += ['c08.activity ' + t, 'c08.hyp ' + t, 'c08.frag ' + t, 'c08.outer ' + t]
+        exp.append(im.text()); meta.append(ast.unparse(node)); impls.append(im)
+    stats['repo_functions'] = len(exp)
     if not run.driver_ok:
-        return None
+        return None, []
     got = run.drive(lines)
-    dis = []
-    for m, e, g in zip(meta, exp, got):
+    dis, tdis = [], {'thm-frees': [], 'outer-symtable': []}
+    for k, (m, e, im) in enumerate(zip(meta, exp, impls)):
+        g, a_hyp, a_frag, a_outer = got[4 * k: 4 * k + 4]
         run.evaluations += 1
         if e != g:
             dis.append(first_difference(m, e, g))
-    return dis
+        # which theorems cover this repo function (hypotheses evaluated by the Lean driver)
+        try:
+            hyp = {kk: set(v) for kk, v in parse_sexp(a_hyp)}
+        except Exception:
+            hyp = {}
+        fr = parse_frag(a_frag)
+        for cl in CLASSES:
+            if hyp.get(cl):
+                stats['repo_class:' + cl] = stats.get('repo_class:' + cl, 0) + 1
+        if fr[0]:
+            stats['repo_in_FragS'] = stats.get('repo_in_FragS', 0) + 1
+        if fr[4]:
+            stats['repo_hypotheses_of_C08_compositional_comp_hold'] = stats.get('repo_hypotheses_of_C08_compositional_comp_hold', 0) + 1
+        if fr[5] and fr[2]:
+            stats['repo_hypotheses_of_C08_dynamic_comp_lookup_hold'] = stats.get('repo_hypotheses_of_C08_dynamic_comp_lookup_hold', 0) + 1
+        if all(fr[:4]) and not hyp.get('harmfulLeaks'):
+            stats['repo_hypotheses_of_C08_classes_partial_and_nested_hold'] = stats.get('repo_hypotheses_of_C08_classes_partial_and_nested_hold', 0) + 1
+        holds = frees_hyp(fr, hyp)
+        if holds:
+            stats['repo_hypotheses_of_C08_frees_nested_hold'] = stats.get('repo_hypotheses_of_C08_frees_nested_hold', 0) + 1
+        if not im.crash:
+            frees_check(a_outer, c08_sym.impl_classes(im), None, im.ser, 0, holds, True, stats, 'repo_', m, tdis)
+    return dis, tdis['thm-frees']
 
 
 def check(run, only_case=None):
@@ -455,7 +539,7 @@ def check(run, only_case=None):
         res, dis = check_cases(run, cases, workdir, 'generated', stats)
         for k, v in dis0.items():
             dis[k] = v + dis.get(k, [])
-        rdis = repo_correspondence(run, stats) if only_case is None else []
+        rdis, rfrees = repo_correspondence(run, stats) if only_case is None else ([], [])
     finally:
         import shutil
         shutil.rmtree(workdir, ignore_errors=True)
@@ -469,6 +553,10 @@ def check(run, only_case=None):
         # the theorems' conclusions must be observed on the real code wherever their hypotheses hold
         run.oblige('consistency:C08_classes_nested-on-real-code', 'correspondence', not dis['thm-classes'], json.dumps(dis['thm-classes'][:2]))
         run.oblige('consistency:C08_dynamic_comp_lookup-on-real-code', 'correspondence', not dis['thm-dynamic'], json.dumps(dis['thm-dynamic'][:2]))
+        tf = dis['thm-frees'] + (rfrees or [])
+        run.oblige('consistency:C08_frees_nested-on-real-code', 'correspondence', not tf, json.dumps(tf[:2]))
+        run.oblige('correspondence:Spec.outerB=cpython-free-variables', 'correspondence', not dis['outer-symtable'],
+                   json.dumps(dis['outer-symtable'][:2]))
     else:
         run.oblige('correspondence:c08', 'correspondence', False, 'driver unavailable')
     run.cov['stats'] = dict(sorted(stats.items()))
